@@ -155,6 +155,7 @@ class Ctx:
                     "seed": self.seed,
                     "shard": f"{self.shard}/{self.nshards}",
                     "interpreter_mode": os.environ.get("VERIF_SHARD_MODE", "plain"),
+                    "hash_seed": os.environ.get("PYTHONHASHSEED", "0"),
                 }
             )
 
